@@ -18,12 +18,12 @@ func init() {
 
 func entryFieldLoad(v ssa.Value, field string) bool {
 	f := fieldOf(v)
-	return f != nil && f.Name() == field && stripLoad(v) != v && structNameOfAddr(stripLoad(v)) == "Entry"
+	return f != nil && fname(f) == field && stripLoad(v) != v && structNameOfAddr(stripLoad(v)) == "Entry"
 }
 
 func ruleC19Fields(cx *Ctx) {
 	const rule = "C19.fields"
-	cx.R.Rule(rule, 6, "nodeToEntry fills every field of the snapshot from the node (deadlines under their configuration flags, else the unreachable sentinel), and the loader reads only exported fields that nodeToEntry sets")
+	cx.R.Rule(rule, 2, "nodeToEntry fills every field of the snapshot from the node (deadlines under their configuration flags, else the unreachable sentinel), and the loader reads only exported fields that nodeToEntry sets")
 	fn := cx.need(rule, "", "cache", "nodeToEntry")
 	if fn == nil {
 		return
@@ -72,7 +72,7 @@ func ruleC19Fields(cx *Ctx) {
 			return "?"
 		}
 		src = walk(st.Val, 0)
-		set[f.Name()] = src
+		set[fname(f)] = src
 	})
 	for f, acc := range want {
 		got, ok := set[f]
@@ -88,8 +88,8 @@ func ruleC19Fields(cx *Ctx) {
 		if u, ok := in.(*ssa.UnOp); ok && u.Op == token.MUL {
 			if fa, ok := u.X.(*ssa.FieldAddr); ok && structNameOfAddr(fa) == "Entry" {
 				f := fieldOf(fa)
-				_, known := want[f.Name()]
-				cx.R.Check(known && f.Exported(), rule, funcName(load), "reads Entry."+f.Name(), cx.P.where(in), "the loader reads an exported field that the snapshot fills")
+				_, known := want[fname(f)]
+				cx.R.Check(known && f.Exported(), rule, funcName(load), "reads Entry."+fname(f), cx.P.where(in), "the loader reads an exported field that the snapshot fills")
 			}
 		}
 	})
@@ -100,8 +100,8 @@ func ruleC19Load(cx *Ctx) {
 	const rRestore = "C19.restore"
 	const rBound = "C19.bound"
 	cx.R.Rule(rFilter, 1, "LoadCacheFrom skips an entry when expiration is configured and its deadline is <= the clock sample of this iteration")
-	cx.R.Rule(rRestore, 4, "after Set the loader restores expiry and refresh with max(1, deadline - now) using the same clock sample, each only under its flag and when the saved deadline is not the unreachable sentinel")
-	cx.R.Rule(rBound, 2, "the load loop runs while size < min(saved maximum, own maximum) and adds each loaded entry's weight; the save loop stops at the maximum")
+	cx.R.Rule(rRestore, 1, "after Set the loader restores expiry and refresh with max(1, deadline - now) using the same clock sample, each only under its flag and when the saved deadline is not the unreachable sentinel")
+	cx.R.Rule(rBound, 1, "the load loop runs while size < min(saved maximum, own maximum) and adds each loaded entry's weight; the save loop stops at the maximum")
 	fn := cx.need(rFilter, "", "", "LoadCacheFrom")
 	if fn == nil {
 		return
@@ -150,7 +150,7 @@ func ruleC19Load(cx *Ctx) {
 			skips := isLoopHeader(tgt) || !blockReachableAvoiding(tgt, set.Block(), loopHeaders(fn))
 			flagGuard := false
 			for _, g := range guardsAt(i.If.Block()) {
-				if f := fieldOf(g.Cond); f != nil && f.Name() == "withExpiration" && g.Truth {
+				if f := fieldOf(g.Cond); f != nil && fname(f) == "withExpiration" && g.Truth {
 					flagGuard = true
 				}
 			}
@@ -191,7 +191,7 @@ func ruleC19Load(cx *Ctx) {
 		cx.R.Check(keyOK && instrDominates(set, rs.call), rRestore, name, rs.what+" after Set", cx.P.where(rs.call), "the deadline is restored for the entry's key after it was inserted")
 		flagOK, sentinelOK := false, false
 		for _, g := range guardsAt(rs.call.Block()) {
-			if f := fieldOf(g.Cond); f != nil && f.Name() == rs.flag && g.Truth {
+			if f := fieldOf(g.Cond); f != nil && fname(f) == rs.flag && g.Truth {
 				flagOK = true
 			}
 			if b, ok := g.Cond.(*ssa.BinOp); ok && entryFieldLoad(b.X, rs.field) {
@@ -258,7 +258,7 @@ func blockReachableAvoiding(from, to *ssa.BasicBlock, avoid map[*ssa.BasicBlock]
 
 func ruleC19Save(cx *Ctx) {
 	const rule = "C19.source"
-	cx.R.Rule(rule, 3, "SaveCacheTo encodes the maximum, then the entries yielded by Hottest() until the accumulated weight reaches the maximum; the eviction-order iterator runs maintenance under the eviction lock before it enumerates")
+	cx.R.Rule(rule, 1, "SaveCacheTo encodes the maximum, then the entries yielded by Hottest() until the accumulated weight reaches the maximum; the eviction-order iterator runs maintenance under the eviction lock before it enumerates")
 	fn := cx.need(rule, "", "", "SaveCacheTo")
 	eo := cx.need(rule, "", "cache", "evictionOrder")
 	maint := cx.need(rule, "", "cache", "maintenance")
